@@ -286,7 +286,7 @@ PROPS['C02'] = dict(
 # ------------------------------------------------------------------------------------------------ C07
 PROPS['C07'] = dict(
   explanation='Bounded symbolic execution of the real Zigzag_persistence and Filtered_zigzag_persistence (chain matrix with vine swaps, surjective/injective diamonds; clang IR of the headers in /repo) over symbolic arrow sequences (insertion of a cell whose boundary is present, removal of a cell without coface, identity). Per arrow an in-harness oracle (dense GF(2) Betti numbers) fixes whether a class is born or dies, its dimension and index; each streamed finite interval must close an open birth of that dimension at that arrow, the open intervals must be exactly the unclosed births, insertion-only sequences must reproduce the pairing of an independent boundary-matrix reduction, the full interval decomposition (which birth is paired with which death) must equal the one computed by an independent right-filtration algorithm (Carlsson-de Silva) on explicit GF(2) homology bases, and the filtered front-end must report the same intervals translated to monotone symbolic filtration values minus the zero-length ones.',
-  bounds=dict(quick='all admissible sequences of k=6 arrows over the faces of the triangle (with the full decomposition oracle); k=5 with the two filtered front-ends (streaming; storing with ignoreCyclesAboveDim in {-1,0,1}); 4 vertices + triangle boundary fixed, then 3 solver-chosen arrows (filtered); k=5 on the tetrahedron; graph zigzags on 4 vertices with 5 edge arrows (full oracle)', thorough='k=8 (triangle), k=7 (tetrahedron), graph zigzags on 4 vertices with 8 edge arrows (full oracle)'),
+  bounds=dict(quick='all admissible sequences of k=6 arrows over the faces of the triangle (with the full decomposition oracle); k=5 with the two filtered front-ends (streaming; storing with ignoreCyclesAboveDim in {-1,0,1}); 4 vertices + triangle boundary fixed, then 3 solver-chosen arrows (filtered); k=5 on the tetrahedron; graph zigzags on 4 vertices with 5 edge arrows (full oracle)', thorough='k=7 (triangle, full oracle), k=6 (tetrahedron), graph zigzags on 4 vertices with 8 edge arrows (full oracle)'),
   outside=['sequences longer than k', 'column types other than the default of the class'],
   units=[U('zz_tri_k6', 'C07_zigzag.cpp', ['VP_K=6', 'VP_NV=3'], cflags=['-U__SSE2__'], weight=10, must_reach=['end', 'insert', 'remove', 'identity', 'insert-only']),
          U('zz_tri_k5_filtered', 'C07_zigzag.cpp', ['VP_K=5', 'VP_NV=3', 'VP_FILTERED'], cflags=['-U__SSE2__'], weight=10, must_reach=['end', 'insert', 'remove']),
@@ -295,7 +295,7 @@ PROPS['C07'] = dict(
          U('zz_tri_k6_full', 'C07_zigzag.cpp', ['VP_K=6', 'VP_NV=3', 'VP_FULLORACLE'], cflags=['-U__SSE2__'], weight=10, must_reach=['end', 'full-oracle', 'remove']),
          U('zz_graph4_e5_full', 'C07_zigzag.cpp', ['VP_K=9', 'VP_NV=4', 'VP_FULLORACLE', 'VP_EDGES_ONLY'], cflags=['-U__SSE2__'], weight=12, must_reach=['end', 'full-oracle', 'remove']),
          U('zz_graph4_e8_full', 'C07_zigzag.cpp', ['VP_K=12', 'VP_NV=4', 'VP_FULLORACLE', 'VP_EDGES_ONLY'], cflags=['-U__SSE2__'], tiers=['thorough'], weight=80, budget=3300, must_reach=['end', 'full-oracle']),
-         U('zz_tri_k8', 'C07_zigzag.cpp', ['VP_K=8', 'VP_NV=3'], cflags=['-U__SSE2__'], tiers=['thorough'], weight=40, must_reach=['end']), U('zz_tet_k7', 'C07_zigzag.cpp', ['VP_K=7', 'VP_NV=4'], cflags=['-U__SSE2__'], tiers=['thorough'], weight=40, must_reach=['end'])])
+         U('zz_tri_k7', 'C07_zigzag.cpp', ['VP_K=7', 'VP_NV=3', 'VP_FULLORACLE'], cflags=['-U__SSE2__'], tiers=['thorough'], weight=40, must_reach=['end']), U('zz_tet_k6', 'C07_zigzag.cpp', ['VP_K=6', 'VP_NV=4'], cflags=['-U__SSE2__'], tiers=['thorough'], weight=40, must_reach=['end'])])
 
 # ------------------------------------------------------------------------------------------------ C12
 PROPS['C12'] = dict(
@@ -303,18 +303,18 @@ PROPS['C12'] = dict(
   bounds=dict(quick='every graph on 4 vertices with each edge absent or weighted 1..3 (flat-map neighbour tables) / 1..2 (dense-array tables, permuted vertex labels); every graph on 5 vertices with unit weights; weights are finite-grid doubles', thorough='5 vertices, weights 1..3, dense tables; float weights 1..4 on 4 vertices; 6 vertices: the octahedron graph with weights 1..3 (both tables) and the complete graph with weights 1..2 (dense tables)'),
   outside=['graphs with more than 5 vertices', 'TBB parallel sort (sequential build only)'],
   units=[U('collapse_n4_w3', 'C12_collapse.cpp', ['VP_N=4', 'VP_WMAX=3', 'VP_WT=double', 'VP_GRIDW'], cflags=['-U__SSE2__'], weight=10), U('collapse_n4_w2_dense_labels', 'C12_collapse.cpp', ['VP_N=4', 'VP_WMAX=2', 'VP_LABELS=1', 'VP_WT=double', 'VP_GRIDW', 'GUDHI_COLLAPSE_USE_DENSE_ARRAY'], cflags=['-U__SSE2__'], weight=8),
-         U('collapse_n5_w1', 'C12_collapse.cpp', ['VP_N=5', 'VP_WMAX=1', 'VP_WT=double', 'VP_GRIDW'], cflags=['-U__SSE2__'], weight=10), U('collapse_n5_w2', 'C12_collapse.cpp', ['VP_N=5', 'VP_WMAX=2', 'VP_WT=double', 'VP_GRIDW'], cflags=['-U__SSE2__'], tiers=['thorough'], weight=60),
+         U('collapse_n5_w1', 'C12_collapse.cpp', ['VP_N=5', 'VP_WMAX=1', 'VP_WT=double', 'VP_GRIDW'], cflags=['-U__SSE2__'], weight=10), U('collapse_n5_w2', 'C12_collapse.cpp', ['VP_N=5', 'VP_WMAX=2', 'VP_WT=double', 'VP_GRIDW', 'VP_FORKW'], cflags=['-U__SSE2__'], tiers=['thorough'], weight=60),
          U('collapse_octahedron_w3_dense', 'C12_collapse.cpp', ['VP_N=6', 'VP_WMAX=3', 'VP_WT=double', 'VP_GRIDW', 'VP_FORKW', 'VP_GRAPH=1', 'GUDHI_COLLAPSE_USE_DENSE_ARRAY'], cflags=['-U__SSE2__'], tiers=['thorough'], weight=60, budget=3300),
          U('collapse_k6_w2_dense', 'C12_collapse.cpp', ['VP_N=6', 'VP_WMAX=2', 'VP_WT=double', 'VP_GRIDW', 'VP_FORKW', 'VP_GRAPH=2', 'GUDHI_COLLAPSE_USE_DENSE_ARRAY'], cflags=['-U__SSE2__'], tiers=['thorough'], weight=20, budget=3300),
          U('collapse_k6_w3_tri1_dense', 'C12_collapse.cpp', ['VP_N=6', 'VP_WMAX=3', 'VP_WT=double', 'VP_GRIDW', 'VP_FORKW', 'VP_GRAPH=2', 'VP_FIXTRI=1', 'GUDHI_COLLAPSE_USE_DENSE_ARRAY'], cflags=['-U__SSE2__'], tiers=['thorough'], weight=60, budget=3300),
          U('collapse_k6_w3_tri1', 'C12_collapse.cpp', ['VP_N=6', 'VP_WMAX=3', 'VP_WT=double', 'VP_GRIDW', 'VP_FORKW', 'VP_GRAPH=2', 'VP_FIXTRI=1'], cflags=['-U__SSE2__'], tiers=['thorough'], weight=60, budget=3300),
-         U('collapse_n5_w3_dense', 'C12_collapse.cpp', ['VP_N=5', 'VP_WMAX=3', 'VP_WT=double', 'VP_GRIDW', 'GUDHI_COLLAPSE_USE_DENSE_ARRAY'], cflags=['-U__SSE2__'], tiers=['thorough'], weight=60), U('collapse_n4_float_w4', 'C12_collapse.cpp', ['VP_N=4', 'VP_WMAX=4', 'VP_WT=float', 'VP_GRIDW'], cflags=['-U__SSE2__'], tiers=['thorough'], weight=40)])
+         U('collapse_n5_w3_dense', 'C12_collapse.cpp', ['VP_N=5', 'VP_WMAX=3', 'VP_WT=double', 'VP_GRIDW', 'VP_FORKW', 'GUDHI_COLLAPSE_USE_DENSE_ARRAY'], cflags=['-U__SSE2__'], tiers=['thorough'], weight=60), U('collapse_n4_float_w4', 'C12_collapse.cpp', ['VP_N=4', 'VP_WMAX=4', 'VP_WT=float', 'VP_GRIDW'], cflags=['-U__SSE2__'], tiers=['thorough'], weight=40)])
 
 # ------------------------------------------------------------------------------------------------ C11
 _t11 = ['end', 'full', 'lower', 'upper', 'sparse']
 PROPS['C11'] = dict(
   explanation='Bounded symbolic execution of the real Ripser engine (gudhi/ripser.h: distance-matrix classes, the three simplex encodings incl. the 128-bit integer class, coboundary enumerators, apparent pairs, the hash-map based cohomology; clang IR of the headers in /repo): every dissimilarity is a finite-grid float (ties, no triangle inequality), threshold, dim_max, input form and encoding are forked by the solver, the modulus is concrete per unit; the streamed intervals (zero-length dropped) are compared as multisets per dimension with a dense signed Z_p reduction of the truncated Rips flag filtration computed in the harness.',
-  bounds=dict(quick='all quick units run concrete matrices enumerated by the solver (the symbolic grid-float variants are in the thorough tier). n=4: dissimilarities in {1,2,3} (p=2), and in {0,1,2} (zero entries between distinct points, no triangle inequality) as concrete matrices enumerated by the solver (p=2 and 3); n=5 in {1,2} (p=2, enumerated); thresholds {0.5,1,2,inf}, dim_max 0..n-2, forms full/lower/upper/sparse, encodings auto/bitfield-64/bitfield-128/cns-128 combined by a covering design (every pair of factor levels); n=3 modulus 5, values {0,1,2,3}; unit bigindex: 5 active points with labels 1030+256i among 2055 sparse vertices, p=3, dim_max 2 (packed simplex indices exceed 32 bits and differ in their high bits)', thorough='full cross product at n=4 with values {1,2,3}; n=5 with {0,1,2} (p=3) and {1,2,3} (p=2); n=4 p=3 symbolic'),
+  bounds=dict(quick='all quick units run concrete matrices enumerated by the solver (the symbolic grid-float variants are in the thorough tier). n=4: dissimilarities in {1,2,3} (p=2), and in {0,1,2} (zero entries between distinct points, no triangle inequality) as concrete matrices enumerated by the solver (p=2 and 3); n=5 in {1,2} (p=2, enumerated); thresholds {0.5,1,2,inf}, dim_max 0..n-2, forms full/lower/upper/sparse, encodings auto/bitfield-64/bitfield-128/cns-128 combined by a covering design (every pair of factor levels); n=3 modulus 5, values {0,1,2,3}; unit bigindex: 5 active points with labels 1030+256i among 2055 sparse vertices, p=3, dim_max 2 (packed simplex indices exceed 32 bits and differ in their high bits)', thorough='full cross product at n=4 with values {1,2,3} (enumerated); n=5 with {0,1} and {1,2} (p=3, enumerated); n=4 (p=2, p=3) and n=3 (p=5) with symbolic grid floats'),
   outside=['Euclidean point-cloud input (sqrt of symbolic coordinates)', 'more than 5 points', 'the SIMD path of boost::unordered_flat_map (compiled with -U__SSE2__)', 'moduli above 5'],
   budget=dict(quick=1200, thorough=3300),
   units=[U('ripser_n4_p2_enum', 'C11_ripser.cpp', ['VP_N=4', 'VP_P=2', 'VP_DMAX=3', 'VP_FORKD'], cflags=['-U__SSE2__'], weight=10, must_reach=_t11), U('ripser_n4_p2', 'C11_ripser.cpp', ['VP_N=4', 'VP_P=2', 'VP_DMAX=2'], cflags=['-U__SSE2__'], tiers=['thorough'], weight=20, must_reach=_t11),
@@ -325,8 +325,8 @@ PROPS['C11'] = dict(
          U('ripser_n3_p5_enum', 'C11_ripser.cpp', ['VP_N=3', 'VP_P=5', 'VP_DMAX=3', 'VP_DLO=0', 'VP_FORKD'], cflags=['-U__SSE2__'], weight=5, must_reach=_t11), U('ripser_n3_p5', 'C11_ripser.cpp', ['VP_N=3', 'VP_P=5', 'VP_DMAX=3'], cflags=['-U__SSE2__'], tiers=['thorough'], weight=20, must_reach=_t11),
          U('ripser_n4_p3', 'C11_ripser.cpp', ['VP_N=4', 'VP_P=3', 'VP_DMAX=2'], cflags=['-U__SSE2__'], tiers=['thorough'], weight=20, must_reach=_t11),
          U('ripser_n4_p2_cross', 'C11_ripser.cpp', ['VP_N=4', 'VP_P=2', 'VP_DMAX=3', 'VP_CROSS', 'VP_FORKD'], cflags=['-U__SSE2__'], tiers=['thorough'], weight=60, must_reach=_t11),
-         U('ripser_n5_p3_zero', 'C11_ripser.cpp', ['VP_N=5', 'VP_P=3', 'VP_DMAX=2', 'VP_DLO=0', 'VP_FORKD'], cflags=['-U__SSE2__'], tiers=['thorough'], weight=60, must_reach=_t11),
-         U('ripser_n5_p2_d3', 'C11_ripser.cpp', ['VP_N=5', 'VP_P=2', 'VP_DMAX=3', 'VP_FORKD'], cflags=['-U__SSE2__'], tiers=['thorough'], weight=60, must_reach=_t11)])
+         U('ripser_n5_p3_zero', 'C11_ripser.cpp', ['VP_N=5', 'VP_P=3', 'VP_DMAX=1', 'VP_DLO=0', 'VP_FORKD'], cflags=['-U__SSE2__'], tiers=['thorough'], weight=60, must_reach=_t11),
+         U('ripser_n5_p3_forked', 'C11_ripser.cpp', ['VP_N=5', 'VP_P=3', 'VP_DMAX=2', 'VP_FORKD'], cflags=['-U__SSE2__'], tiers=['thorough'], weight=60, must_reach=_t11)])
 
 # ------------------------------------------------------------------------------------------------ C18
 PROPS['C18'] = dict(
